@@ -91,6 +91,7 @@ class Step(object):
         self.snap = Snap(st["snap"])
         self.before = before
         self.slept = st.get("slept", 0)
+        self.reasons = st.get("reasons", [])      # reason texts of this step's error replies / refused check (side channel)
         self.opts = st.get("opts")         # digest of every watcher's option values (real Watcher.options()), or None
 
     def kind(self):
@@ -178,6 +179,57 @@ def spawn_times(sc, V):
     return out
 
 
+def unsignalable(sc, V):
+    """pids the daemon is not permitted to signal (worker behaviour `eperm`, children of a `kid_eperm` worker): os.kill
+    raises EPERM for them.  Behaviours are assigned by spawn attempt (exec failures count), children take the pids
+    right after their parent's.  Such workers are outside "workers that obey / ignore / delay on the stop signal"."""
+    bh = sc.get("behav") or [{}]
+    att = 0
+    out = set()
+    for s in V:
+        for l in s.lines:
+            if l[0] == "execfail":
+                att += 1
+            elif l[0] == "spawn":
+                b = bh[att % len(bh)]
+                if b.get("eperm"):
+                    out.add(l[1])
+                if b.get("kid_eperm"):
+                    out.update(range(l[1] + 1, l[1] + 1 + b.get("kids", 0)))
+                att += 1
+    return out
+
+
+def refused(l):
+    """a kernel `kill` line of a signal the kernel refused (EPERM): the via tag ends in `!`"""
+    return l[0] == "sig" and l[4].endswith("!")
+
+
+def refused_before(V, n, pids=None):
+    """some signal of the daemon was refused up to (and including) step n — for one of `pids` when given"""
+    return any(refused(l) and (pids is None or l[1] in pids) for x in V[:n + 1] for l in x.lines)
+
+
+def watcher_family(V, n, wname_spawn):
+    """every pid ever spawned for the watcher (spawn name) up to step n, with the descendants the snapshots showed"""
+    own = set(l[1] for x in V[:n + 1] for l in x.lines if l[0] == "spawn" and l[2] == wname_spawn)
+    fam = set(own)
+    for x in V[:n + 1]:
+        if not x.snap.blocked:
+            fam |= x.snap.descendants(own)
+    return fam
+
+
+def beyond_reach(V, n, snap, pid, nosig):
+    """the daemon cannot terminate worker `pid` the way the properties assume: it may not signal it, or a kill of it failed
+    part-way because it may not signal one of its descendants (stop_children / the recursive SIGKILL: AccessDenied)"""
+    fam = set(snap.descendants({pid}))
+    for x in V[:n + 1]:                   # a descendant that has gone meanwhile was one when its signal was refused
+        if not x.snap.blocked and pid in x.snap.kernel:
+            fam |= x.snap.descendants({pid})
+    return pid in nosig or refused_before(V, n, fam)
+
+
 def res_name(n):
     return n.lower().replace(" ", "_")
 
@@ -214,6 +266,44 @@ def c10(sc, V):
         if s.kind() == "check" and s.before.slot is not None and not s.before.blocked and s.snap.slot != s.before.slot:
             f.append({"sig": "refused-request-changed-slot", "step": s.n,
                       "msg": "periodic check arrived while %s was in flight; afterwards the slot is %s" % (s.before.slot, s.snap.slot)})
+        # "when the operation in flight ends — successfully, with an error … — the next state-changing request is accepted
+        # again": with the slot free no exclusive operation is in flight, so the conflict error (util.synchronized) is wrong
+        if not s.before.blocked and s.before.slot is None and s.kind() in ("req", "check", "start"):
+            for reason in s.reasons:
+                if reason.startswith("arbiter is already running") or reason.startswith("arbiter is restarting"):
+                    # F33: a failed `restart` of the arbiter leaves `_restarting` set
+                    f32 = reason.startswith("arbiter is restarting") and s.before.restarting
+                    f.append({"sig": "wedged-after-failed-restart" if f32 else "refused-although-no-operation-in-flight",
+                              "step": s.n,
+                              "msg": "%s was refused with %r although the exclusive slot is free (flags stopping=%s restarting=%s)"
+                                     % (s.cmd() or s.kind(), reason, s.before.stopping, s.before.restarting)})
+                    break
+        # `Process.stopping` says that a termination of this worker is in flight (a kill_process is polling it).  With no
+        # timer pending nothing is in flight: the flag will never be cleared, and the next stop / kill of this worker waits
+        # for it for ever, holding the slot (F34: an AccessDenied from the SIGKILL escalation leaves kill_process between
+        # `stopping = True` and `stopping = False`)
+        if s.snap.quiescent():
+            stuck = [(w["name"], q[0]) for w in s.snap.watchers for q in w["procs"]
+                     if q[2] and alive(s.snap.kernel.get(q[0], ("g", None))[0])]
+            if stuck and not any(x.get("sig") == "stopping-flag-stuck" for x in f):
+                f.append({"sig": "stopping-flag-stuck", "step": s.n,
+                          "msg": "workers %r are marked `stopping` (a termination in flight) with nothing in flight: the next "
+                                 "stop of them never ends" % stuck})
+        # Watcher._stop runs only inside the exclusive operations (stop, restart, rm, quit, the check, a start that is
+        # aborted): a watcher that reports `stop` in a timer step while the slot is free was being stopped by an operation
+        # that is still in progress without being serialized (e.g. a multi-watcher stop that gave the slot back when the
+        # first _stop failed).  (The socket-triggered start of on-demand watchers runs detached by design: F28.)
+        # Judged for a watcher whose stop was already under way (status `stopping`) when the timer fired — a termination
+        # signal that had to wait for the slot (SysHandler retries on a timer) starts and ends its own stop inside a timer step.
+        if s.kind() == "wake" and s.before.slot is None and not s.before.blocked and \
+                not any(c.get("on_demand") for c in sc["watchers"]) and \
+                not any(x.kind() == "sig" and x.op[1] == "quit" for x in V[:s.n]):
+            ev = next((l for l in s.lines if l[0] == "ev" and l[2] == "stop" and
+                       any(res_name(w["name"]) == l[1] and w["status"] == "stopping" for w in s.before.watchers)), None)
+            if ev is not None:
+                f.append({"sig": "operation-in-progress-without-slot", "step": s.n,
+                          "msg": "a timer step completed the stop of %s while the exclusive slot was free: the operation that "
+                                 "stops it is in flight unserialized" % ev[1]})
         # every code path that starts a worker belongs to one of the listed state-changing operations (start, restart, reload,
         # incr, set, add, the periodic check, the daemon's own start).  A worker started by a *timer* step therefore means such
         # an operation is still in progress; if the slot is free at that moment, a request arriving now would be accepted next
@@ -237,7 +327,7 @@ def c10(sc, V):
 # ------------------------------------------------------------------------------------------------ C05
 
 def c05(sc, V):
-    f = []
+    f = c05_no_progress(sc, V)
     for s in V:
         if s.snap.blocked:
             # F28: the socket-triggered start of an on-demand watcher runs detached, outside the exclusive slot; a stop or
@@ -255,6 +345,49 @@ def c05(sc, V):
                 and not s.before.blocked and not _ctl_closed_before(V, s.n) and s.op[1].get("msg_type") != "cast":
             if len(s.of("rep")) != 1:
                 f.append({"sig": "readonly-not-answered-at-once", "step": s.n, "msg": "%s got %d replies in its own step" % (s.cmd(), len(s.of("rep")))})
+    return f
+
+
+def _max_polls(sc, V):
+    """the longest a kill_process may poll (100 ms steps): the largest graceful_timeout any watcher or request can have"""
+    g = max([w.get("graceful_ms", 300) for w in sc["watchers"]] + [0])
+    for s in V:
+        p = s.props()
+        if s.cmd() == "add":
+            g = max(g, 30000)
+            o = p.get("options")
+            if isinstance(o, dict) and isinstance(o.get("graceful_timeout"), (int, float)):
+                g = max(g, int(o["graceful_timeout"] * 1000))
+        if s.cmd() == "set" and isinstance(p.get("options"), dict) and isinstance(p["options"].get("graceful_timeout"), (int, float)):
+            g = max(g, int(p["options"]["graceful_timeout"] * 1000))
+        if s.cmd() == "kill" and isinstance(p.get("graceful_timeout"), (int, float)):
+            g = max(g, int(p["graceful_timeout"] * 1000))
+    return (g + 99) // 100
+
+
+def c05_no_progress(sc, V):
+    """ "Every accepted state-changing request finishes": an operation holds the slot while timer after timer fires and
+    nothing at all happens — no kernel call that shows, no event, no reply, the same snapshot but for the clock — for
+    longer than any grace period in force: it is waiting for something that will not come"""
+    f = []
+    lim = _max_polls(sc, V) + 3
+    run = 0
+    for s in V:
+        if s.snap.blocked:
+            break
+        # … and the timers it waits on are the same as before, relative to the clock: the timer that fired was armed again
+        # as it was and no other timer came closer (a long warmup that is still counting down is progress)
+        same = s.kind() == "wake" and not s.lines and s.snap.slot is not None and s.before.slot == s.snap.slot and \
+            s.before.sleepers and sorted(s.snap.sleepers) == sorted(s.before.sleepers) and \
+            [(w["name"], w["status"], w["np"], w["procs"]) for w in s.before.watchers] == \
+            [(w["name"], w["status"], w["np"], w["procs"]) for w in s.snap.watchers] and s.before.kernel == s.snap.kernel
+        run = run + 1 if same else 0
+        if run > lim:
+            stuck = [(w["name"], q[0]) for w in s.snap.watchers for q in w["procs"] if q[2]]
+            f.append({"sig": "stopping-flag-stuck" if stuck else "operation-makes-no-progress", "step": s.n,
+                      "msg": "%s holds the slot; %d timer firings in a row changed nothing (longest grace period: %d polls)%s"
+                             % (s.snap.slot, run, lim - 3, "; workers marked stopping: %r" % stuck if stuck else "")})
+            break
     return f
 
 
@@ -607,6 +740,13 @@ def _stopsig_at(sc, V, n, wname):
 
 
 def _sigkilled_before(V, n, pid):
+    """SIGKILL was delivered to pid (a refused one kills nobody)"""
+    return any(l[0] == "sig" and l[1] == pid and l[2] == 9 and l[3] in ("r", "z") and not refused(l)
+               for x in V[:n + 1] for l in x.lines)
+
+
+def _sigkill_attempted(V, n, pid):
+    """the daemon tried to SIGKILL pid: delivered, or refused by the kernel (EPERM)"""
     return any(l[0] == "sig" and l[1] == pid and l[2] == 9 and l[3] in ("r", "z") for x in V[:n + 1] for l in x.lines)
 
 
@@ -646,7 +786,10 @@ def c03(sc, V):
                 continue
             wn_real = next((w["name"] for w in s.before.watchers if w["name"].replace(" ", "_") == wn), wn)
             is_kill = any(m[0] == "ev" and m[2] == "kill" and m[3] == pid for m in s.lines[i + 1:i + 3])
-            if sg != 9 and via == "" and st == "r" and pid not in stop_sent and is_kill:
+            # a kill_process that fails right after this signal (stop_children: the daemon may not signal a child of the
+            # worker, AccessDenied) never reaches its grace period: the worker's termination starts with a later stop signal
+            aborted = any(refused(m) and s.before.kernel.get(m[1], (None, None))[1] == pid for m in s.lines[i + 1:])
+            if sg != 9 and via == "" and st == "r" and pid not in stop_sent and is_kill and not aborted:
                 # a `set` request applies all its options before it re-evaluates the process set
                 T = _graceful_at(sc, V, s.n + (1 if s.cmd() == "set" else 0), wn_real)
                 if s.cmd() == "kill":
@@ -675,7 +818,7 @@ def c03(sc, V):
         for i, l in enumerate(s.lines):
             if l[0] == "sig" and l[2] == 15 and l[3] == "r" and l[4] == "t" and l[1] in owner and l[1] in stop_sent:
                 wn_real = next((w["name"] for w in s.before.watchers if w["name"].replace(" ", "_") == owner[l[1]]), owner[l[1]])
-                if not _sigkilled_before(V, s.n, l[1]) and wn_real not in veto and not _after_spawn_failed(V, s.n, l[1]):
+                if not _sigkill_attempted(V, s.n, l[1]) and wn_real not in veto and not _after_spawn_failed(V, s.n, l[1]):
                     f.append({"sig": "no-sigkill-after-grace-period", "step": s.n,
                               "msg": "the wait for pid %d ended with the worker alive and no SIGKILL was sent" % l[1]})
         # a kill request that names a signal: that is the stop signal its targets get
@@ -705,6 +848,10 @@ def c03(sc, V):
                     not any(x.cmd() in ("set", "add") for x in V[:s.n + 1])
                 is_final = l[2] == 9 and s.kind() == "wake" and cfg.get("stop_children") and \
                     not any(x.cmd() in ("set", "add") for x in V[:s.n + 1])
+                # a child the daemon may not signal ends the loop over the children with AccessDenied: what the children
+                # after it get is outside C03's quantifier (worker behaviours: obey / ignore / delay)
+                if (is_stop or is_final) and any(refused(m) for m in s.lines):
+                    continue
                 if is_stop or is_final:
                     got = set(m[1] for m in s.lines if m[0] == "sig" and m[2] == l[2])
                     # a child that died by itself during the step (armed fault) cannot be signalled
@@ -743,6 +890,7 @@ def _addressed(s):
 
 def c02(sc, V):
     f = []
+    nosig = unsignalable(sc, V)
     pids_of = {}          # spawn-name -> [pids]
     nostop = set()
     rm_pending = []
@@ -779,6 +927,7 @@ def c02(sc, V):
                     wb = next((x for x in s.before.watchers if res_name(x["name"]) == evn), None)
                     listed_before = set(q[0] for q in wb["procs"]) if wb else set()
                     surv = [p for p in pids if p not in after and not _sigkilled_before(V, s.n, p) and
+                            not beyond_reach(V, s.n, s.snap, p, nosig) and
                             (s.snap.kernel.get(p, ("g", None))[0] == "r" or
                              (s.snap.kernel.get(p, ("g", None))[0] == "z" and p in listed_before))]
                     if surv:
@@ -796,7 +945,8 @@ def c02(sc, V):
                 rm_pending.append((res_name(wb["name"]), [q[0] for q in wb["procs"]]))
         if rm_pending and s.snap.slot != "arbiter_rm_watcher":
             for evn, pids in rm_pending:
-                surv = [p for p in pids if s.snap.kernel.get(p, ("g", None))[0] == "r" and not _sigkilled_before(V, s.n + 1, p)]
+                surv = [p for p in pids if s.snap.kernel.get(p, ("g", None))[0] == "r" and not _sigkilled_before(V, s.n + 1, p)
+                        and not beyond_reach(V, s.n, s.snap, p, nosig)]
                 if surv:
                     f.append({"sig": "survivor-after-rm", "step": s.n,
                               "msg": "rm of %s has completed but its workers %r are still running" % (evn, surv)})
@@ -843,6 +993,7 @@ def c02(sc, V):
 
 def c04(sc, V):
     f = []
+    nosig = unsignalable(sc, V)
     spawned = {}
     orphaned_ok = set()
     raised = False
@@ -874,6 +1025,11 @@ def c04(sc, V):
         if a.quiescent():
             for w in a.watchers:
                 if w["status"] in ("starting", "stopping"):
+                    # an operation that failed because the daemon was not permitted to signal a worker (or a child) of this
+                    # watcher leaves it where it was: such workers are outside C04's quantifier (hook outcomes, spawn
+                    # failures, worker deaths)
+                    if refused_before(V, s.n, watcher_family(V, s.n, w["name"].replace(" ", "_"))):
+                        continue
                     odw = any(c.get("on_demand") and c["name"] == w["name"] for c in sc["watchers"]) and \
                         any(x.kind() == "sockev" and x.op[1] for x in V[:s.n])
                     f.append({"sig": "on-demand-start-overlap" if odw else
@@ -881,7 +1037,7 @@ def c04(sc, V):
                               "msg": "%s is %s with nothing in flight" % (w["name"], w["status"])})
             for pid, (st, pp) in a.kernel.items():
                 if pp == 0 and st == "r" and pid not in listed and pid not in orphaned_ok and pid in spawned and \
-                        not _sigkilled_before(V, s.n, pid):
+                        not _sigkilled_before(V, s.n, pid) and not beyond_reach(V, s.n, a, pid, nosig):
                     # F28: the detached socket-triggered start of an on-demand watcher goes on spawning after the watcher was removed
                     od = any(c.get("on_demand") and c["name"].replace(" ", "_") == spawned[pid] for c in sc["watchers"]) and \
                         any(x.kind() == "sockev" and x.op[1] for x in V[:s.n]) and any(x.cmd() == "rm" for x in V[:s.n])
@@ -992,8 +1148,11 @@ def c09(sc, V):
                 f.append({"sig": "live-but-reaped", "step": s.n, "msg": "%r" % unann})
             # with nothing in flight a `kill` event means the worker is gone (the stop signal is followed by SIGKILL):
             # a subscriber drops the pid from its live set when it sees the event
+            # (a kill that failed part-way — the daemon was not permitted to signal the worker's child, or to SIGKILL the
+            # worker — is outside C09's quantifier: its `kill` event stands although the worker lives)
             wrongly = [p for p in live if p in kill_ev and a.kernel.get(p, ("g", 0))[0] == "r" and
-                       not _sigkilled_before(V, s.n, p)]      # SIGKILLed = dying, whatever the kernel's bookkeeping shows
+                       not _sigkilled_before(V, s.n, p) and      # SIGKILLed = dying, whatever the kernel's bookkeeping shows
+                       not beyond_reach(V, s.n, a, p, set())]
             if wrongly:
                 f.append({"sig": "kill-event-for-surviving-worker", "step": s.n,
                           "msg": "pids %r were announced killed but are running and listed with nothing in flight" % sorted(wrongly)})
@@ -1111,7 +1270,8 @@ def c14(sc, V, counters=None):
                     # child (signal ... recursive / children) is a different delivery, not gated by the hook
                     wb = s.before.w(wn)
                     own = set(p[0] for p in wb["procs"]) if wb else set()
-                    sent = nxt is not None and nxt[0] == "sig" and nxt[4] == "" and nxt[1] in own
+                    # sent, or attempted and refused by the kernel (EPERM): the hook did not hold it back either way
+                    sent = nxt is not None and nxt[0] == "sig" and nxt[4] in ("", "!") and nxt[1] in own
                     if not eff and sent and nxt[2] != 9:
                         f.append({"sig": "vetoed-signal-sent", "step": s.n, "msg": "before_signal said no, signal %d sent to %d" % (nxt[2], nxt[1])})
                     if not eff and (not sent) and _sigkill_intended(s, i):
@@ -1133,6 +1293,8 @@ def c14(sc, V, counters=None):
                 w = x.snap.w(wn)
                 if w is None:
                     break
+                if refused_before(V, x.n, watcher_family(V, x.n, wn.replace(" ", "_"))):
+                    break          # the aborting _stop failed: the daemon may not signal the worker (outside C14's quantifier)
                 if x.snap.slot is None and (x.kind() != "check") and x.snap.quiescent() is not None:
                     if x.snap.slot is None and not any(sl for sl in []):
                         if w["status"] != "stopped" or w["procs"]:
@@ -1276,6 +1438,7 @@ def c19(sc, V):
 
 def c01(sc, V):
     f = []
+    nosig = unsignalable(sc, V)
     prev_conv = None
     for s in V:
         if s.snap.blocked:
@@ -1310,7 +1473,8 @@ def c01(sc, V):
                 if not all(alive(s.before.kernel.get(p[0], ("g", 0))[0]) for p in wb["procs"]):
                     continue
                 if any(h in (cfgm.get("hooks") or {}) for h in ("before_spawn", "after_spawn")) or \
-                        any(x.cmd() == "set" and "hooks" in json.dumps(x.op[1].get("properties", {})) for x in V[:s.n] if x.kind() == "req" and isinstance(x.op[1], dict)):
+                        any(x.cmd() == "set" and "hooks" in json.dumps(x.op[1].get("properties", {})) for x in V[:s.n] if x.kind() == "req" and isinstance(x.op[1], dict)) or \
+                        any(l[0] == "execfail" for l in s.lines):      # … as are exec failures
                     continue
                 st_times = spawn_times(sc, V[:s.n + 1])
                 for l in s.lines:
@@ -1337,6 +1501,10 @@ def c01(sc, V):
                     continue
                 live = [p for p in w["procs"] if alive(a.kernel.get(p[0], ("g", 0))[0])]
                 if any(l[0] == "execfail" for l in s.lines) or _has_start_hooks(cfg):
+                    conv = False
+                    continue
+                # a surplus worker the daemon may not signal cannot be removed: outside C01's quantifier
+                if any(beyond_reach(V, s.n, a, p[0], nosig) for p in w["procs"]):
                     conv = False
                     continue
                 if len(live) != int(w["np"]) or len(w["procs"]) != int(w["np"]):
@@ -1409,6 +1577,7 @@ def _last_spawn_time(V, n, w):
 
 def c08(sc, V):
     f = []
+    nosig = unsignalable(sc, V)
     signalled = None
     for s in V:
         if s.before.blocked:
@@ -1430,7 +1599,7 @@ def c08(sc, V):
             listed_before = set()
             lb = set(q[0] for w in s.before.watchers for q in w["procs"])
             left = [p for p, (st, pp) in a.kernel.items() if pp == 0 and (st == "r" or (st == "z" and p in lb)) and
-                    not _sigkilled_before(V, s.n, p) and
+                    not _sigkilled_before(V, s.n, p) and not beyond_reach(V, s.n, a, p, nosig) and
                     _spawned_by_registered(V, s.n, p, a)]
             if left:
                 f.append({"sig": "survivor-after-shutdown", "step": s.n, "msg": "daemon children %r left behind" % left})
